@@ -108,7 +108,9 @@ StMenu ==
         (x :> Calc("neg", <<x>>)),
         (w :> Calc("add", <<"time", w>>))}
        \cup (IF w # x THEN {(x :> M!Num(0 - 1)) @@ (w :> M!Num(1)),
-                            (x :> Calc("mul", <<"p", w>>)) @@ (w :> M!Num(0 - 2))} ELSE {})
+                            (x :> Calc("mul", <<"p", w>>)) @@ (w :> M!Num(0 - 2)),
+                            \* one flux, two variables, two different state- / time-dependent coefficients
+                            (x :> Calc("neg", <<x>>)) @@ (w :> Calc("add", <<"time", w>>))} ELSE {})
        \cup (IF \E j \in DOMAIN slots : slots[j].kind = "der"
              THEN {(x :> Calc("id", <<"d1">>))} ELSE {})
        \* a computed coefficient whose function no translator can represent (only in families offering it)
